@@ -195,14 +195,18 @@ CONFIG = {
         "assumptions": ["element conversions do not panic (NoPanic hypothesis of the theorem; true of every built-in by C07)"],
     },
     "C15": {
-        "lean_modules": ["Darling.Props.C15"],
+        "lean_modules": ["Darling.Props.C15", "Darling.Props.C15a"],
         "streams": [
             {"name": "c15b", "n": {"quick": 50000, "thorough": 50000},
              "trivial": lambda case, ans: False},
+            {"name": "c15a", "n": {"quick": 6000, "thorough": 200000},
+             "trivial": lambda case, ans: "(toks)" in case},
         ],
-        "rule": "(b) exhaustive: all 2^7 probe implementers x {returning Ok, returning a span-less error} x 165 item forms (word, global/raw paths, 23 literal spellings, 12 expression kinds, 16 list bodies incl. malformed, each also wrapped in 1 and 2 invisible groups) + every literal in nested-literal position; distinct by case text",
-        "assumptions": ["probe hooks are the only overridden methods (from_meta / from_nested_meta left at default), as the statement's 2^7 subsets prescribe"],
-        "partial": "(b) routing proved and exhaustively corresponded; (a) token-level splitting is added by stream c15a",
+        # an accepted list that does not survive print + re-parse violates (a) by itself
+        "impl_judge": lambda case, ans: "printing and re-parsing the accepted list is not the identity" if ans.startswith("(roundtrip-differs") else None,
+        "rule": "(a) c15a: token streams for NestedMeta::parse_meta_list — exhaustive over a pool of 91 entries (12 literal spellings incl. negative numbers and booleans, 14 path forms incl. `::`-rooted, keyword-rooted and raw ones, 18 name-value forms incl. `true = 1` and arbitrary expressions, 11 list forms to depth 5, 36 dubious forms: stray punctuation, missing values, keywords, half paths): each alone, with trailing / doubled / leading comma, and every ordered pair with and without the comma; plus random lists of 0..5 entries nested to depth 4 with separator mutations; for every token position the harness records what syn's Lit and Meta parsers do when started there (oracle rows); accepted lists are printed and re-parsed by the harness (identity required); (b) c15b exhaustive: all 2^7 probe implementers x {returning Ok, returning a span-less error} x 165 item forms (word, global/raw paths, 23 literal spellings, 12 expression kinds, 16 list bodies incl. malformed, each also wrapped in 1 and 2 invisible groups) + every literal in nested-literal position; distinct by case text",
+        "assumptions": ["probe hooks are the only overridden methods (from_meta / from_nested_meta left at default), as the statement's 2^7 subsets prescribe", "syn's Lit / Meta parsers and syn's printer are parameters (oracle rows per token position); the model is darling's own look-ahead and comma discipline"],
+        "partial": "the print / re-parse identity is judged on the implementation's answers (syn's printer is external), not proved",
     },
     "C18": {
         "lean_modules": ["Darling.Props.C18"],
